@@ -1336,6 +1336,10 @@ are_hufftables_useable(struct huff_code *lit_len_hufftable, struct huff_code *di
                 }
         }
 
+        /* The last length symbol (285, match length 258) has no extra bits */
+        if (lit_len_hufftable[LIT_LEN - 1].length > max_len_code_len)
+                max_len_code_len = lit_len_hufftable[LIT_LEN - 1].length;
+
         for (i = 0; i < DIST_LEN; i++) {
                 if (dist_hufftable[i].length + dist_extra_bits > max_dist_code_len)
                         max_dist_code_len = dist_hufftable[i].length + dist_extra_bits;
